@@ -486,7 +486,9 @@ Definition sample_tree : node := Node [] [] s_MT [] []
    LinkNode [109] [66] [47;89]].
 
 (* =====================================================================================================================
-   cgnsdiff: with -d and tolerance 0 the output is empty iff the two forests are equal up to the order of children
+   cgnsdiff, every option set (-c -i -d -f, with / without -r): the bisection finds what a scan finds when the list is
+   sorted by the key it searches with; the matching loop pairs exactly the children with equal keys; the output is
+   empty iff the two forests are equal up to the order of children and up to the normalisation of names
    ===================================================================================================================== *)
 Module DiffP.
 Definition strip (n : node) : node := rename [] n.
@@ -583,37 +585,194 @@ Proof.
 Qed.
 End Keyed.
 
+
 Lemma ksorted_map {A} (f : A -> bytes) l : ksorted (fun x => x) (map f l) -> ksorted f l.
 Proof.
   induction l as [|x r IH]; simpl; auto. intros [H1 H2]. split; auto.
   intros y Hy. apply H1. apply in_map; auto.
 Qed.
-
-(* ---- sort_names ------------------------------------------------------------------------------------------------------ *)
-Lemma insert_name_perm x l : Permutation (insert_name x l) (x :: l).
+Lemma lt_ne a b : bytes_ltb a b = true -> a <> b.
+Proof. intros H E. subst. rewrite ltb_irrefl in H. discriminate. Qed.
+Lemma ksorted_app {A} (f : A -> bytes) a q b : ksorted f (a ++ q :: b) ->
+  (forall g, In g a -> bytes_ltb (f g) (f q) = true) /\ (forall z, In z b -> bytes_ltb (f q) (f z) = true) /\ ksorted f b.
 Proof.
-  induction l as [|y r IH]; simpl; auto. destruct (bytes_ltb y x); auto.
+  induction a as [|y a IH]; simpl.
+  - intros [H1 H2]. repeat split; auto; intros g [].
+  - intros [H1 H2]. destruct (IH H2) as (A1 & A2 & A3). repeat split; auto.
+    intros g [<-|I]; auto. apply H1. apply in_or_app. right. left. auto.
+Qed.
+Lemma ksorted_NoDup {A} (f : A -> bytes) l : ksorted f l -> NoDup (map f l).
+Proof.
+  induction l as [|x r IH]; simpl; [constructor|]. intros [H1 H2]. constructor; auto.
+  intros I. apply in_map_iff in I as (y & E & Iy). apply H1 in Iy. rewrite E, ltb_irrefl in Iy. discriminate.
+Qed.
+Lemma NoDup_map_inj {A B} (f : A -> B) l a b :
+  NoDup (map f l) -> In a l -> In b l -> f a = f b -> a = b.
+Proof.
+  induction l as [|x r IH]; simpl; [tauto|]. intros H Ia Ib E. inversion H as [|? ? Hn Hd]; subst.
+  destruct Ia as [->|Ia], Ib as [->|Ib]; auto.
+  - exfalso. apply Hn. rewrite E. apply in_map; auto.
+  - exfalso. apply Hn. rewrite <- E. apply in_map; auto.
+Qed.
+Lemma NoDup_map_NoDup {A B} (f : A -> B) l : NoDup (map f l) -> NoDup l.
+Proof.
+  induction l as [|x r IH]; simpl; intros H; constructor; inversion H; subst; auto.
+  intros I. apply H2. apply in_map; auto.
+Qed.
+
+(* ---- G1: the two uses of the normalisation agree; sorting by a key; bisection ------------------------------------------- *)
+Lemma keys_agree : forall o nm, sort_key o nm = find_key o nm.
+Proof. reflexivity. Qed.
+
+Section SortFacts.
+Variable key : bytes -> bytes.
+Lemma insert_name_by_perm x l : Permutation (insert_name_by key x l) (x :: l).
+Proof.
+  induction l as [|y r IH]; simpl; auto. destruct (bytes_ltb (key y) (key x)); auto.
   rewrite IH. apply perm_swap.
 Qed.
-Lemma sort_names_perm l : Permutation (sort_names l) l.
-Proof. induction l as [|x r IH]; simpl; auto. rewrite insert_name_perm. auto. Qed.
+Lemma sort_names_by_perm : forall l, Permutation (sort_names_by key l) l.
+Proof. induction l as [|x r IH]; simpl; auto. rewrite insert_name_by_perm. auto. Qed.
 
-Lemma insert_name_sorted x l :
-  ksorted (fun x => x) l -> ~ In x l -> ksorted (fun x => x) (insert_name x l).
+Lemma insert_name_by_sorted x l :
+  ksorted key l -> ~ In (key x) (map key l) -> ksorted key (insert_name_by key x l).
 Proof.
   induction l as [|y r IH]; simpl.
   - intros _ _. split; [intros ? []|auto].
-  - intros [H1 H2] Hn. destruct (bytes_ltb y x) eqn:E; simpl.
+  - intros [H1 H2] Hn. destruct (bytes_ltb (key y) (key x)) eqn:E; simpl.
     + split; [|apply IH; auto].
-      intros z Hz. apply (Permutation_in _ (insert_name_perm x r)) in Hz. destruct Hz as [<-|Hz]; auto.
-    + assert (Hxy : bytes_ltb x y = true).
-      { destruct (bytes_ltb x y) eqn:E2; auto. exfalso. apply Hn. left. apply ltb_trich; auto. }
+      intros z Hz. apply (Permutation_in _ (insert_name_by_perm x r)) in Hz. destruct Hz as [<-|Hz]; auto.
+    + assert (Hxy : bytes_ltb (key x) (key y) = true).
+      { destruct (bytes_ltb (key x) (key y)) eqn:E2; auto. exfalso. apply Hn. left. symmetry. apply ltb_trich; auto. }
       split; [|split; auto]. intros z [<-|Hz]; auto. eapply ltb_trans; eauto.
 Qed.
-Lemma sort_names_sorted l : NoDup l -> ksorted (fun x => x) (sort_names l).
+Lemma sort_names_by_sorted : forall l, NoDup (map key l) -> ksorted key (sort_names_by key l).
 Proof.
-  induction 1 as [|x r Hn Hd IH]; simpl; auto. apply insert_name_sorted; auto.
-  intros I. apply Hn. eapply Permutation_in; [apply sort_names_perm|]; auto.
+  induction l as [|x r IH]; simpl; auto. intros H. inversion H as [|? ? Hn Hd]; subst.
+  apply insert_name_by_sorted; auto.
+  intros I. apply Hn. eapply Permutation_in; [|exact I]. apply Permutation_map. apply sort_names_by_perm.
+Qed.
+End SortFacts.
+
+Lemma sort_names_by_ext k1 k2 l : (forall x, k1 x = k2 x) -> sort_names_by k1 l = sort_names_by k2 l.
+Proof.
+  intros H. induction l as [|x r IH]; simpl; auto. rewrite IH. generalize (sort_names_by k2 r) as m.
+  induction m as [|y m IHm]; simpl; auto. rewrite !H, IHm. reflexivity.
+Qed.
+
+Lemma lenZ_app {A} (a b : list A) : lenZ (a ++ b) = lenZ a + lenZ b.
+Proof. unfold lenZ. rewrite app_length. lia. Qed.
+Lemma lenZ_nonneg {A} (a : list A) : 0 <= lenZ a.
+Proof. unfold lenZ. lia. Qed.
+
+Section Find.
+Variable key : bytes -> bytes.
+
+Lemma scan_none p1 l : forall i, (forall y, In y l -> key y <> p1) -> find_scan_from key p1 l i = -1.
+Proof.
+  induction l as [|y r IH]; simpl; auto. intros i H.
+  destruct (bytes_eqb p1 (key y)) eqn:E.
+  - apply bytes_eqb_eq in E. exfalso. apply (H y); auto.
+  - apply IH. intros z I. apply H. auto.
+Qed.
+Lemma scan_first p1 a q b : forall i, key q = p1 -> (forall y, In y a -> key y <> p1) ->
+  find_scan_from key p1 (a ++ q :: b) i = i + lenZ a.
+Proof.
+  induction a as [|y r IH]; simpl; intros i Hq H.
+  - rewrite Hq, bytes_eqb_refl. unfold lenZ; simpl; lia.
+  - destruct (bytes_eqb p1 (key y)) eqn:E.
+    + apply bytes_eqb_eq in E. exfalso. apply (H y); auto.
+    + rewrite IH by auto. unfold lenZ; simpl length. lia.
+Qed.
+Lemma scan_at p1 l j i : ksorted key l -> (j < length l)%nat -> key (nth j l []) = p1 ->
+  find_scan_from key p1 l i = i + Z.of_nat j.
+Proof.
+  intros S Hj Hk. destruct (nth_split l [] Hj) as (a & b & E & La).
+  set (q := nth j l []) in *. rewrite E in S. apply ksorted_app in S as (S1 & _ & _).
+  rewrite E, scan_first; auto.
+  - unfold lenZ. lia.
+  - intros y I. rewrite <- Hk. apply lt_ne. auto.
+Qed.
+Lemma scan_all_out p1 l i :
+  (forall j, 0 <= j < lenZ l -> key (nth (Z.to_nat j) l []) <> p1) -> find_scan_from key p1 l i = -1.
+Proof.
+  intros H. apply scan_none. intros y I. destruct (In_nth _ _ [] I) as (n & Hn & <-).
+  specialize (H (Z.of_nat n)). rewrite Nat2Z.id in H. apply H. unfold lenZ. lia.
+Qed.
+Lemma ksorted_nth_lt l : ksorted key l -> forall i j, (i < j < length l)%nat ->
+  bytes_ltb (key (nth i l [])) (key (nth j l [])) = true.
+Proof.
+  induction l as [|x r IH]; simpl; [intros _ i j Hij; lia | intros [H1 H2] i j Hij].
+  destruct i, j; try lia.
+  - apply H1. apply nth_In. lia.
+  - apply IH; auto. lia.
+Qed.
+
+Lemma bisect_correct p1 l : ksorted key l -> forall fuel lo hi,
+  0 <= lo -> hi <= lenZ l - 1 -> hi - lo + 1 < Z.of_nat fuel ->
+  (forall j, 0 <= j < lenZ l -> j < lo \/ hi < j -> key (nth (Z.to_nat j) l []) <> p1) ->
+  bisect key fuel p1 l lo hi = find_scan_from key p1 l 0.
+Proof.
+  intros S. induction fuel as [|f IH]; intros lo hi Hlo Hhi Hf Hout; cbn [bisect].
+  - symmetry. apply scan_all_out. intros j Hj. apply Hout; auto. lia.
+  - destruct (Z.ltb_spec hi lo) as [Hlt|Hge].
+    + symmetry. apply scan_all_out. intros j Hj. apply Hout; auto. lia.
+    + set (mid := (lo + hi) / 2).
+      assert (Hmid : lo <= mid <= hi).
+      { unfold mid. pose proof (Z.div_mod (lo + hi) 2 ltac:(lia)).
+        pose proof (Z.mod_pos_bound (lo + hi) 2 ltac:(lia)). lia. }
+      assert (Hm : (Z.to_nat mid < length l)%nat) by (unfold lenZ in *; lia).
+      destruct (bytes_eqb p1 (key (nth (Z.to_nat mid) l []))) eqn:E.
+      * apply bytes_eqb_eq in E. rewrite (scan_at p1 l (Z.to_nat mid) 0); auto. lia.
+      * apply bytes_eqb_neq in E.
+        destruct (bytes_ltb (key (nth (Z.to_nat mid) l [])) p1) eqn:L.
+        -- apply IH; try lia. intros j Hj Hc.
+           destruct (Z.le_gt_cases lo j) as [Hj1|Hj1]; [|apply Hout; auto; lia].
+           destruct (Z.le_gt_cases j hi) as [Hj2|Hj2]; [|apply Hout; auto; lia].
+           destruct (Z.eq_dec j mid) as [->|Hne]; [congruence|].
+           assert (Hl : bytes_ltb (key (nth (Z.to_nat j) l [])) (key (nth (Z.to_nat mid) l [])) = true)
+             by (apply ksorted_nth_lt; auto; lia).
+           apply lt_ne. eapply ltb_trans; eauto.
+        -- assert (L2 : bytes_ltb p1 (key (nth (Z.to_nat mid) l [])) = true).
+           { destruct (bytes_ltb p1 (key (nth (Z.to_nat mid) l []))) eqn:L2; auto.
+             exfalso. apply E. apply ltb_trich; auto. }
+           apply IH; try lia. intros j Hj Hc.
+           destruct (Z.le_gt_cases lo j) as [Hj1|Hj1]; [|apply Hout; auto; lia].
+           destruct (Z.le_gt_cases j hi) as [Hj2|Hj2]; [|apply Hout; auto; lia].
+           destruct (Z.eq_dec j mid) as [->|Hne]; [congruence|].
+           assert (Hl : bytes_ltb (key (nth (Z.to_nat mid) l [])) (key (nth (Z.to_nat j) l [])) = true)
+             by (apply ksorted_nth_lt; auto; unfold lenZ in *; lia).
+           intros C. symmetry in C. revert C. apply lt_ne. eapply ltb_trans; eauto.
+Qed.
+
+(* FALSE for l = [] : both probes read the default entry [] (in C: out of bounds), e.g. find_name id [] [] = 0 *)
+Theorem find_name_correct : forall l name,
+  l <> [] -> ksorted key l -> find_name key name l = find_scan key name l.
+Proof.
+  intros l name Hne S. unfold find_name, find_scan.
+  assert (Hlen : 1 <= lenZ l) by (destruct l; [congruence|unfold lenZ; simpl length; lia]).
+  destruct (bytes_eqb (key name) (key (nth 0 l []))) eqn:E0.
+  - apply bytes_eqb_eq in E0. rewrite (scan_at (key name) l 0 0); auto. unfold lenZ in Hlen. lia.
+  - destruct (bytes_eqb (key name) (key (nth (Z.to_nat (lenZ l - 1)) l []))) eqn:E1.
+    + apply bytes_eqb_eq in E1. rewrite (scan_at (key name) l (Z.to_nat (lenZ l - 1)) 0); auto; unfold lenZ in *; lia.
+    + apply bisect_correct; auto; try lia. unfold lenZ. lia.
+Qed.
+End Find.
+
+Lemma find_name_empty_list_counterexample :
+  find_name (fun x => x) [] [] = 0 /\ find_scan (fun x => x) [] [] = -1.
+Proof. split; reflexivity. Qed.
+
+(* a mismatch really breaks it: list sorted by the raw names ("B D a c e"), searched with the case-folded key: "D" is missed *)
+Theorem find_name_key_mismatch_refuted :
+  exists l name, let raw := fun x : bytes => x in let fold := copy_name true false in
+    NoDup (map fold l) /\ In name l /\
+    find_name fold name (sort_names_by raw l) <> find_scan fold name (sort_names_by raw l).
+Proof.
+  exists [[66];[68];[97];[99];[101]], [68]. cbv zeta. split; [|split].
+  - vm_compute. repeat constructor; simpl; intuition discriminate.
+  - simpl; auto.
+  - vm_compute. discriminate.
 Qed.
 
 (* ---- sort_nodes ------------------------------------------------------------------------------------------------------ *)
@@ -625,12 +784,13 @@ Qed.
 Lemma sort_nodes_perm l : Permutation (sort_nodes l) l.
 Proof. induction l as [|x r IH]; simpl; auto. rewrite insert_node_perm. auto. Qed.
 
-Lemma map_insert_node x l : map node_name (insert_node x l) = insert_name (node_name x) (map node_name l).
+Lemma map_insert_node x l :
+  map node_name (insert_node x l) = insert_name_by (fun x => x) (node_name x) (map node_name l).
 Proof.
   induction l as [|y r IH]; simpl; auto.
   destruct (bytes_ltb (node_name y) (node_name x)); simpl; congruence.
 Qed.
-Lemma map_sort_nodes l : map node_name (sort_nodes l) = sort_names (map node_name l).
+Lemma map_sort_nodes l : map node_name (sort_nodes l) = sort_names_by (fun x => x) (map node_name l).
 Proof. induction l as [|x r IH]; simpl; auto. rewrite map_insert_node, IH. reflexivity. Qed.
 
 Lemma map_insert_commute (g : node -> node) (Hg : forall k, node_name (g k) = node_name k) x l :
@@ -644,7 +804,9 @@ Lemma map_sort_commute (g : node -> node) (Hg : forall k, node_name (g k) = node
 Proof. induction l as [|x r IH]; simpl; auto. rewrite map_insert_commute, IH; auto. Qed.
 
 Lemma sort_nodes_sorted l : NoDup (map node_name l) -> ksorted node_name (sort_nodes l).
-Proof. intros H. apply ksorted_map. rewrite map_sort_nodes. apply sort_names_sorted; auto. Qed.
+Proof.
+  intros H. apply ksorted_map. rewrite map_sort_nodes. apply sort_names_by_sorted. rewrite map_id. auto.
+Qed.
 
 Lemma sort_nodes_unique l1 l2 :
   Permutation l1 l2 -> NoDup (map node_name l1) -> sort_nodes l1 = sort_nodes l2.
@@ -666,33 +828,48 @@ Proof.
   rewrite (ltb_asym _ _ (H1 y (or_introl eq_refl))). reflexivity.
 Qed.
 
-(* ---- canon ------------------------------------------------------------------------------------------------------------ *)
-Lemma canon_name k : node_name (canon k) = node_name k.
-Proof. destruct k; reflexivity. Qed.
-Lemma map_name_canon ks : map node_name (map canon ks) = map node_name ks.
-Proof. rewrite map_map. apply map_ext. apply canon_name. Qed.
+Lemma in_sorted_map (g : node -> node) x ks : In x (sort_nodes (map g ks)) <-> exists k, In k ks /\ x = g k.
+Proof.
+  split.
+  - intros I. apply (Permutation_in _ (sort_nodes_perm _)) in I. apply in_map_iff in I as (k & E & I). eauto.
+  - intros (k & I & ->). apply (Permutation_in _ (Permutation_sym (sort_nodes_perm _))). apply in_map; auto.
+Qed.
 
+(* ---- canon_by / canon -------------------------------------------------------------------------------------------------- *)
+Lemma canon_by_name key dd k : node_name (canon_by key dd k) = key (node_name k).
+Proof. destruct k; reflexivity. Qed.
+Lemma map_name_canon_by key dd ks :
+  map node_name (map (canon_by key dd) ks) = map (fun k => key (node_name k)) ks.
+Proof. rewrite map_map. apply map_ext. intros k. apply canon_by_name. Qed.
+
+Theorem canon_by_perm : forall key dd nm l dt d da ks1 ks2,
+  Permutation ks1 ks2 -> nodup_names (map (fun k => key (node_name k)) ks1) = true ->
+  canon_by key dd (Node nm l dt d da ks1) = canon_by key dd (Node nm l dt d da ks2).
+Proof.
+  intros key dd nm l dt d da ks1 ks2 HP HN. simpl. f_equal. apply sort_nodes_unique.
+  - apply Permutation_map; auto.
+  - rewrite map_name_canon_by. apply nodup_names_NoDup; auto.
+Qed.
+
+Lemma canon_name k : node_name (canon k) = node_name k.
+Proof. apply canon_by_name. Qed.
 Theorem canon_perm : forall nm l dt d da ks1 ks2,
   Permutation ks1 ks2 -> nodup_names (map node_name ks1) = true ->
   canon (Node nm l dt d da ks1) = canon (Node nm l dt d da ks2).
-Proof.
-  intros nm l dt d da ks1 ks2 HP HN. simpl. f_equal. apply sort_nodes_unique.
-  - apply Permutation_map; auto.
-  - rewrite map_name_canon. apply nodup_names_NoDup; auto.
-Qed.
+Proof. intros. apply (canon_by_perm (fun x => x) true); auto. Qed.
 
 Theorem canon_idem : forall t, names_unique t = true -> canon (canon t) = canon t.
 Proof.
   induction t as [nm l dt d da ks IH|nm f p] using node_ind2; [|reflexivity].
-  intros H. simpl in H. apply andb_true_iff in H as [H1 H2]. simpl. f_equal.
+  intros H. simpl in H. apply andb_true_iff in H as [H1 H2]. unfold canon. simpl. f_equal.
+  fold canon.
   rewrite (map_sort_commute canon canon_name).
   assert (E : map canon (map canon ks) = map canon ks).
   { rewrite map_map. apply map_ext_in. intros k Hk.
     rewrite Forall_forall in IH. apply IH; auto. rewrite forallb_forall in H2. auto. }
   rewrite E. apply sort_nodes_id. apply sort_nodes_sorted.
-  rewrite map_name_canon. apply nodup_names_NoDup; auto.
+  unfold canon. rewrite map_name_canon_by. apply nodup_names_NoDup; auto.
 Qed.
-
 (* ---- sizes, compare_data ------------------------------------------------------------------------------------------------ *)
 Lemma fold_left_mul l a : fold_left Z.mul l a = a * prodZ l.
 Proof.
@@ -759,116 +936,246 @@ Proof.
   - intros (-> & -> & -> & ->). rewrite !bytes_eqb_refl, Nat.eqb_refl. cbn [negb orb].
     destruct (is_nil d2); auto. destruct (0 <? diff_data_size t2 d2); auto.
 Qed.
-
-(* ---- find_name ------------------------------------------------------------------------------------------------------------ *)
-Lemma find_name_absent p l : forall i, ~ In p l -> find_name_from p l i = -1.
+Lemma compare_data_nil_false n1 n2 a1 l1 t1 d1 da1 k1 a2 l2 t2 d2 da2 k2 :
+  (compare_data false n1 n2 (Node a1 l1 t1 d1 da1 k1) (Node a2 l2 t2 d2 da2 k2) = [] <->
+   l1 = l2 /\ t1 = t2 /\ d1 = d2).
 Proof.
-  induction l as [|y r IH]; simpl; auto. intros i H.
-  destruct (bytes_eqb p y) eqn:E.
-  - apply bytes_eqb_eq in E. exfalso. apply H. auto.
-  - apply IH. intros I. apply H. auto.
+  unfold compare_data. split.
+  - destruct (bytes_eqb l1 l2) eqn:E1; [|discriminate]. apply bytes_eqb_eq in E1.
+    destruct (bytes_eqb t1 t2) eqn:E2; [|discriminate]. apply bytes_eqb_eq in E2.
+    cbn [negb]. destruct (Nat.eqb (length d1) (length d2)); [|discriminate].
+    destruct (bytes_eqb d1 d2) eqn:E3; [|discriminate]. apply bytes_eqb_eq in E3. auto.
+  - intros (-> & -> & ->). rewrite !bytes_eqb_refl, Nat.eqb_refl. reflexivity.
 Qed.
-Lemma find_name_first p a b : forall i, ~ In p a -> find_name_from p (a ++ p :: b) i = i + lenZ a.
+Lemma compare_data_nil_dd dd n1 n2 a1 l1 t1 d1 da1 k1 a2 l2 t2 d2 da2 k2 :
+  node_ok Old false t1 d1 da1 = true -> node_ok Old false t2 d2 da2 = true ->
+  (compare_data dd n1 n2 (Node a1 l1 t1 d1 da1 k1) (Node a2 l2 t2 d2 da2 k2) = [] <->
+   l1 = l2 /\ t1 = t2 /\ d1 = d2 /\ (if dd then da1 else []) = (if dd then da2 else [])).
 Proof.
-  induction a as [|y r IH]; simpl; intros i H.
-  - rewrite bytes_eqb_refl. unfold lenZ; simpl; lia.
-  - destruct (bytes_eqb p y) eqn:E.
-    + apply bytes_eqb_eq in E. exfalso. apply H. auto.
-    + rewrite IH by (intros I; apply H; auto). unfold lenZ; simpl length. lia.
-Qed.
-Lemma in_split_first (p : bytes) l : In p l -> exists a b, l = a ++ p :: b /\ ~ In p a.
-Proof.
-  induction l as [|y r IH]; simpl; [tauto|]. intros H.
-  destruct (bytes_dec y p) as [->|Hn].
-  - exists [], r. split; auto.
-  - destruct H as [H|H]; [contradiction|]. destruct (IH H) as (a & b & -> & Hna).
-    exists (y :: a), b. split; auto. intros [E|I]; auto.
+  intros O1 O2. destruct dd.
+  - apply compare_data_nil; auto.
+  - rewrite compare_data_nil_false. tauto.
 Qed.
 
+(* ---- the matching loop: what it prints ------------------------------------------------------------------------------------ *)
 Lemma skipn_lenZ_app {A} (a b : list A) : skipn (Z.to_nat (lenZ a)) (a ++ b) = b.
 Proof.
   unfold lenZ. rewrite Nat2Z.id. rewrite skipn_app, skipn_all, Nat.sub_diag. reflexivity.
 Qed.
-Lemma lenZ_app {A} (a b : list A) : lenZ (a ++ b) = lenZ a + lenZ b.
-Proof. unfold lenZ. rewrite app_length. lia. Qed.
-Lemma lenZ_nonneg {A} (a : list A) : 0 <= lenZ a.
-Proof. unfold lenZ. lia. Qed.
+Lemma nil_iff_no_in {A} (l : list A) : l = [] <-> forall x, ~ In x l.
+Proof.
+  split; [intros -> x []|]. destruct l as [|y r]; auto. intros H. destruct (H y). left. auto.
+Qed.
 
-(* ---- the matching loop ------------------------------------------------------------------------------------------------------ *)
-Section LoopFacts.
+Section LoopSpec.
+Variable key : bytes -> bytes.
 Variable rec : bytes -> bytes -> list dline.
-Variables (nm1 nm2 : bytes).
+Variables nm1 nm2 : bytes.
 
-Lemma diff_loop_nil_fwd chk c2 : forall l1 done todo,
-  c2 = done ++ todo -> NoDup l1 -> (forall p, In p l1 -> ~ In p done) ->
-  diff_loop chk rec c2 nm1 nm2 l1 (lenZ done) = [] ->
-  todo = l1 /\ forall p, In p l1 -> rec p p = [].
+(* no entry of c has the key of p *)
+Definition unm (p : bytes) (c : list bytes) : Prop := forall q, In q c -> key q <> key p.
+
+(* the lines printed for two lists of children names: the comparison of every pair with equal keys, "<" for every
+   name of the first list without partner, ">" for every name of the second list without partner *)
+Definition loop_spec (c1 c2 : list bytes) (x : dline) : Prop :=
+  (exists p q, In p c1 /\ In q c2 /\ key p = key q /\ In x (rec p q)) \/
+  (exists p, x = DLeft (slash nm1 p) /\ In p c1 /\ unm p c2) \/
+  (exists q, x = DRight (slash nm2 q) /\ In q c2 /\ unm q c1).
+
+Lemma key_split p c : unm p c \/ exists a q b, c = a ++ q :: b /\ key q = key p /\ unm p a.
 Proof.
-  induction l1 as [|p rest IH]; intros done todo Hc Hnd Hdone H; cbn [diff_loop] in H.
-  - subst c2. rewrite skipn_lenZ_app in H. destruct todo; [|discriminate]. split; auto. intros ? [].
-  - destruct (in_dec bytes_dec p c2) as [Hin|Hout].
-    2:{ unfold find_name in H. rewrite find_name_absent in H by auto. discriminate. }
-    destruct (in_split_first _ _ Hin) as (a & b & Hab & Hna).
-    assert (Hf : find_name p c2 = lenZ a).
-    { unfold find_name. rewrite Hab, find_name_first by auto. lia. }
-    rewrite Hf in H.
-    pose proof (lenZ_nonneg a) as Ha0. pose proof (lenZ_nonneg done) as Hd0.
-    destruct (Z.ltb_spec (lenZ a) 0) as [?|_]; [lia|].
-    assert (Hsk : skipn (Z.to_nat (lenZ done)) c2 = todo) by (rewrite Hc; apply skipn_lenZ_app).
-    rewrite Hsk in H.
-    apply app_eq_nil in H as [Hgap H].
-    assert (Hsplit : a = done /\ todo = p :: b).
-    { rewrite Hc in Hab. apply app_eq_app in Hab as [l [[E1 E2]|[E1 E2]]].
-      - destruct l as [|x l].
-        + rewrite app_nil_r in E1. simpl in E2. split; congruence.
-        + exfalso. simpl in E2. injection E2 as <- _. apply (Hdone p); [left; auto|].
-          rewrite E1. apply in_or_app. right. left. auto.
-      - destruct l as [|x l].
-        + rewrite app_nil_r in E1. simpl in E2. split; congruence.
-        + exfalso. rewrite E1, E2 in Hgap. rewrite lenZ_app in Hgap.
-          replace (Z.to_nat (lenZ done + lenZ (x :: l) - lenZ done)) with (S (length l)) in Hgap
-            by (unfold lenZ; simpl length; lia).
-          simpl in Hgap. discriminate. }
-    destruct Hsplit as [-> ->].
-    replace (Z.max (lenZ done) (lenZ done)) with (lenZ done) in H by lia.
-    assert (Hq : nth (Z.to_nat (lenZ done)) c2 [] = p).
-    { rewrite Hc. unfold lenZ. rewrite Nat2Z.id. apply nth_middle. }
-    rewrite Hq in H.
-    destruct (negb chk || (path_fits nm1 p && path_fits nm2 p)); [|discriminate].
-    apply app_eq_nil in H as [Hrec H].
-    inversion Hnd as [|? ? Hp Hnd']; subst.
-    specialize (IH (done ++ [p]) b).
-    destruct IH as [E1 E2]; auto.
-    + rewrite <- app_assoc. reflexivity.
-    + intros q Hq' I. apply in_app_or in I as [I|[<-|[]]]; [eapply Hdone; eauto; right; auto|contradiction].
-    + rewrite lenZ_app. exact H.
-    + split; [congruence|]. intros q [<-|I]; auto.
+  induction c as [|y r IH]; [left; intros ? []|].
+  destruct (bytes_dec (key y) (key p)) as [E|N].
+  - right. exists [], y, r. split; [reflexivity|split; auto]. intros ? [].
+  - destruct IH as [U|(a & q & b & -> & Hq & Ua)].
+    + left. intros z [<-|I]; auto.
+    + right. exists (y :: a), q, b. split; [reflexivity|split; auto]. intros z [<-|I]; auto.
 Qed.
 
-Lemma diff_loop_nil_bwd c : NoDup c -> forall todo done,
-  c = done ++ todo ->
-  (forall p, In p todo -> rec p p = []) ->
-  diff_loop false rec c nm1 nm2 todo (lenZ done) = [].
+Lemma loop_spec_incl c1 c2 c1' c2' x :
+  (forall p, In p c1 <-> In p c1') -> (forall q, In q c2 <-> In q c2') ->
+  loop_spec c1 c2 x -> loop_spec c1' c2' x.
 Proof.
-  intros Hnd. induction todo as [|p rest IH]; intros done Hc Hall; cbn [diff_loop].
-  - rewrite Hc, skipn_lenZ_app. reflexivity.
-  - assert (Hna : ~ In p done).
-    { rewrite Hc in Hnd. apply NoDup_remove_2 in Hnd. intros I. apply Hnd. apply in_or_app. auto. }
-    assert (Hf : find_name p c = lenZ done).
-    { unfold find_name. rewrite Hc, find_name_first by auto. lia. }
-    rewrite Hf.
-    pose proof (lenZ_nonneg done) as Hd0.
-    destruct (Z.ltb_spec (lenZ done) 0) as [?|_]; [lia|].
-    rewrite Z.sub_diag. simpl firstn. simpl map. simpl app.
-    rewrite Z.max_id.
-    assert (Hq : nth (Z.to_nat (lenZ done)) c [] = p).
-    { rewrite Hc. unfold lenZ. rewrite Nat2Z.id. apply nth_middle. }
-    rewrite Hq. rewrite (Hall p (or_introl eq_refl)). simpl.
-    specialize (IH (done ++ [p])). rewrite lenZ_app in IH. apply IH.
-    + rewrite <- app_assoc. auto.
-    + intros q I. apply Hall. right. auto.
+  intros H1 H2 [(p & q & I1 & I2 & E & Ix)|[(p & -> & I1 & U)|(q & -> & I2 & U)]].
+  - left. exists p, q. repeat split; auto; [apply H1|apply H2]; auto.
+  - right; left. exists p. repeat split; [apply H1; auto|]. intros z Iz. apply U, H2; auto.
+  - right; right. exists q. repeat split; [apply H2; auto|]. intros z Iz. apply U, H1; auto.
 Qed.
-End LoopFacts.
+Lemma loop_spec_perm c1 c2 c1' c2' x :
+  (forall p, In p c1 <-> In p c1') -> (forall q, In q c2 <-> In q c2') ->
+  (loop_spec c1 c2 x <-> loop_spec c1' c2' x).
+Proof.
+  intros H1 H2. split; apply loop_spec_incl; auto; intros z; symmetry; auto.
+Qed.
+Lemma loop_spec_nil_l c2 x : In x (map (fun q => DRight (slash nm2 q)) c2) <-> loop_spec [] c2 x.
+Proof.
+  rewrite in_map_iff. split.
+  - intros (q & <- & I). right; right. exists q. repeat split; auto. intros ? [].
+  - intros [(p & q & [] & _)|[(p & _ & [] & _)|(q & -> & I & _)]]. eauto.
+Qed.
+Lemma loop_spec_nil_r c1 x : In x (map (fun p => DLeft (slash nm1 p)) c1) <-> loop_spec c1 [] x.
+Proof.
+  rewrite in_map_iff. split.
+  - intros (p & <- & I). right; left. exists p. repeat split; auto. intros ? [].
+  - intros [(p & q & _ & [] & _)|[(p & -> & I & _)|(q & _ & [] & _)]]. eauto.
+Qed.
+
+Lemma diff_loop_spec_gen c2 : c2 <> [] -> ksorted key c2 -> forall l1 done2 todo2,
+  c2 = done2 ++ todo2 -> ksorted key l1 -> (forall p, In p l1 -> unm p done2) ->
+  forall x, In x (diff_loop false key rec c2 nm1 nm2 l1 (lenZ done2)) <-> loop_spec l1 todo2 x.
+Proof.
+  intros Hne S2. induction l1 as [|p rest IH]; intros done2 todo2 Hc S1 Hinv x; cbn [diff_loop].
+  - assert (Hsk : skipn (Z.to_nat (lenZ done2)) c2 = todo2) by (rewrite Hc; apply skipn_lenZ_app).
+    rewrite Hsk. apply loop_spec_nil_l.
+  - rewrite (find_name_correct key c2 p Hne S2). unfold find_scan.
+    destruct S1 as [Rg S1].
+    destruct (key_split p c2) as [U|(a & q & b & Hab & Hq & Ua)].
+    + rewrite scan_none by (intros y I; apply U; auto).
+      change (-1 <? 0) with true. cbv iota. cbn [In].
+      rewrite (IH done2 todo2 Hc S1 (fun p' I => Hinv p' (or_intror I))).
+      assert (Ut : unm p todo2) by (intros z I; apply U; rewrite Hc; apply in_or_app; auto).
+      unfold loop_spec. split.
+      * intros [<-|[(p' & q' & I1 & I2 & E & Ix)|[(p' & -> & I1 & U1)|(q' & -> & I2 & U2)]]].
+        -- right; left. exists p. repeat split; auto. left; auto.
+        -- left. exists p', q'. repeat split; auto. right; auto.
+        -- right; left. exists p'. repeat split; auto. right; auto.
+        -- right; right. exists q'. repeat split; auto. intros z [<-|I]; auto.
+           intros C. apply (Ut q' I2). auto.
+      * intros [(p' & q' & [<-|I1] & I2 & E & Ix)|[(p' & -> & [<-|I1] & U1)|(q' & -> & I2 & U2)]].
+        -- exfalso. apply (Ut q' I2). auto.
+        -- right; left. exists p', q'. auto.
+        -- left; auto.
+        -- right; right; left. exists p'. auto.
+        -- right; right; right. exists q'. repeat split; auto. intros z I; apply U2; right; auto.
+    + assert (Hf : find_scan_from key (key p) c2 0 = lenZ a).
+      { rewrite Hab, scan_first; auto. }
+      rewrite Hf. pose proof (lenZ_nonneg a) as Ha0. pose proof (lenZ_nonneg done2) as Hd0.
+      destruct (Z.ltb_spec (lenZ a) 0) as [?|_]; [lia|].
+      assert (Hgap : exists gap, a = done2 ++ gap /\ todo2 = gap ++ q :: b).
+      { pose proof Hc as Hcc. rewrite Hab in Hcc. symmetry in Hcc.
+        apply app_eq_app in Hcc as [l [[E1 E2]|[E1 E2]]].
+        - destruct l as [|z l].
+          + exists []. rewrite app_nil_r in *. simpl in E2. simpl. split; congruence.
+          + exfalso. simpl in E2. injection E2 as <- _.
+            apply (Hinv p (or_introl eq_refl) q); auto. rewrite E1. apply in_or_app. right. left. auto.
+        - exists l. auto. }
+      destruct Hgap as (gap & -> & ->).
+      pose proof S2 as S2a. rewrite Hab in S2a. apply ksorted_app in S2a as (G0 & Bg0 & _).
+      assert (G : forall g, In g gap -> bytes_ltb (key g) (key p) = true).
+      { intros g I. rewrite <- Hq. apply G0. apply in_or_app; auto. }
+      assert (Bg : forall z, In z b -> bytes_ltb (key p) (key z) = true).
+      { intros z I. rewrite <- Hq. auto. }
+      assert (Hsk : skipn (Z.to_nat (lenZ done2)) c2 = gap ++ q :: b) by (rewrite Hc; apply skipn_lenZ_app).
+      rewrite Hsk.
+      replace (Z.to_nat (lenZ (done2 ++ gap) - lenZ done2)) with (length gap)
+        by (rewrite lenZ_app; unfold lenZ; lia).
+      rewrite firstn_app, firstn_all, Nat.sub_diag. cbn [firstn]. rewrite app_nil_r.
+      replace (Z.max (lenZ done2) (lenZ (done2 ++ gap))) with (lenZ (done2 ++ gap))
+        by (rewrite lenZ_app; pose proof (lenZ_nonneg gap); lia).
+      assert (Hlt : lenZ c2 <=? lenZ (done2 ++ gap) = false).
+      { apply Z.leb_gt. rewrite Hab, (lenZ_app (done2 ++ gap)). unfold lenZ at 3. simpl length. lia. }
+      rewrite Hlt.
+      assert (Hnth : nth (Z.to_nat (lenZ (done2 ++ gap))) c2 [] = q).
+      { rewrite Hab. unfold lenZ. rewrite Nat2Z.id. apply nth_middle. }
+      rewrite Hnth. cbn [negb orb].
+      rewrite !in_app_iff, in_map_iff.
+      assert (IHx : In x (diff_loop false key rec c2 nm1 nm2 rest (lenZ (done2 ++ gap) + 1)) <-> loop_spec rest b x).
+      { replace (lenZ (done2 ++ gap) + 1) with (lenZ ((done2 ++ gap) ++ [q]))
+          by (rewrite (lenZ_app (done2 ++ gap)); reflexivity).
+        apply IH; auto.
+        - rewrite <- app_assoc. auto.
+        - intros p' I' z Iz. apply in_app_or in Iz as [Iz|[<-|[]]].
+          + apply in_app_or in Iz as [Iz|Iz].
+            * apply (Hinv p' (or_intror I')); auto.
+            * apply lt_ne. eapply ltb_trans; [apply G; auto|apply Rg; auto].
+          + rewrite Hq. apply lt_ne. apply Rg; auto. }
+      rewrite IHx. clear IHx IH Hnth Hlt Hsk Hf.
+      unfold loop_spec. split.
+      * intros [(g & <- & Ig)|[Ix|[(p' & q' & I1 & I2 & E & Ix)|[(p' & -> & I1 & U1)|(q' & -> & I2 & U2)]]]].
+        -- right; right. exists g. split; [reflexivity|split; [apply in_or_app; auto|]].
+           intros z [<-|Iz] C.
+           ++ apply (lt_ne _ _ (G g Ig)). auto.
+           ++ apply (lt_ne _ _ (ltb_trans _ _ _ (G g Ig) (Rg z Iz))). auto.
+        -- left. exists p, q. split; [left; auto|split; [apply in_or_app; right; left; auto|auto]].
+        -- left. exists p', q'. split; [right; auto|split; [apply in_or_app; right; right; auto|auto]].
+        -- right; left. exists p'. split; [auto|split; [right; auto|]].
+           intros z Iz. apply in_app_or in Iz as [Iz|[<-|Iz]].
+           ++ apply lt_ne. eapply ltb_trans; [apply G; auto|apply Rg; auto].
+           ++ rewrite Hq. apply lt_ne. auto.
+           ++ auto.
+        -- right; right. exists q'. split; [auto|split; [apply in_or_app; right; right; auto|]].
+           intros z [<-|Iz]; auto. apply lt_ne. auto.
+      * intros [(p' & q' & I1 & I2 & E & Ix)|[(p' & -> & I1 & U1)|(q' & -> & I2 & U2)]].
+        -- destruct I1 as [<-|I1]; apply in_app_or in I2 as [I2|[<-|I2]].
+           ++ exfalso. apply (lt_ne _ _ (G q' I2)). auto.
+           ++ right; left. exact Ix.
+           ++ exfalso. apply (lt_ne _ _ (Bg q' I2)). auto.
+           ++ exfalso. apply (lt_ne _ _ (ltb_trans _ _ _ (G q' I2) (Rg p' I1))). auto.
+           ++ exfalso. apply (lt_ne _ _ (Rg p' I1)). congruence.
+           ++ right; right; left. exists p', q'. auto.
+        -- destruct I1 as [<-|I1].
+           ++ exfalso. apply (U1 q); auto. apply in_or_app. right. left. auto.
+           ++ right; right; right; left. exists p'. split; [auto|split; auto].
+              intros z Iz. apply U1. apply in_or_app. right. right. auto.
+        -- apply in_app_or in I2 as [I2|[<-|I2]].
+           ++ left. exists q'. auto.
+           ++ exfalso. apply (U2 p (or_introl eq_refl)). auto.
+           ++ right; right; right; right. exists q'. split; [auto|split; auto].
+              intros z Iz. apply U2. right. auto.
+Qed.
+
+Lemma diff_loop_spec c1 c2 : ksorted key c1 -> ksorted key c2 -> c2 <> [] ->
+  forall x, In x (diff_loop false key rec c2 nm1 nm2 c1 0) <-> loop_spec c1 c2 x.
+Proof.
+  intros S1 S2 Hne x. apply (diff_loop_spec_gen c2 Hne S2 c1 [] c2); auto. intros p _ ? [].
+Qed.
+End LoopSpec.
+
+(* ---- G2: the matching pairs exactly the children whose normalised names are equal ------------------------------------------ *)
+(* FALSE without [c2 <> []]: key = id, c1 = [[]], c2 = []: find_name on the empty list "finds" the default entry [] at
+   position 0 and the loop answers [DOutOfBounds]; compare_nodes never runs the loop on an empty list *)
+Lemma matching_exact_empty_counterexample :
+  diff_loop false (fun x => x) (fun p q => [DData p q]) (sort_names_by (fun x => x) []) [] []
+            (sort_names_by (fun x => x) [[]]) 0 = [DOutOfBounds].
+Proof. reflexivity. Qed.
+
+Theorem matching_exact : forall key nm1 nm2 c1 c2,
+  c2 <> [] ->
+  NoDup (map key c1) -> NoDup (map key c2) ->
+  let out := diff_loop false key (fun p q => [DData p q]) (sort_names_by key c2) nm1 nm2 (sort_names_by key c1) 0 in
+  (forall p q, In (DData p q) out <-> In p c1 /\ In q c2 /\ key p = key q) /\
+  (forall x, In (DLeft x) out <-> exists p, x = slash nm1 p /\ In p c1 /\ ~ In (key p) (map key c2)) /\
+  (forall x, In (DRight x) out <-> exists q, x = slash nm2 q /\ In q c2 /\ ~ In (key q) (map key c1)) /\
+  ~ In DOutOfBounds out /\ ~ In DPathOverflow out.
+Proof.
+  intros key nm1 nm2 c1 c2 Hne N1 N2 out.
+  assert (Hs : forall x, In x out <-> loop_spec key (fun p q => [DData p q]) nm1 nm2 c1 c2 x).
+  { intros x. unfold out. rewrite diff_loop_spec.
+    - apply loop_spec_perm; intros z; split; apply Permutation_in;
+        try apply sort_names_by_perm; symmetry; apply sort_names_by_perm.
+    - apply sort_names_by_sorted; auto.
+    - apply sort_names_by_sorted; auto.
+    - intros C. apply Hne. apply Permutation_nil. rewrite <- C. apply sort_names_by_perm. }
+  assert (Hun : forall p c, unm key p c <-> ~ In (key p) (map key c)).
+  { intros p c. split.
+    - intros U I. apply in_map_iff in I as (q & E & I). apply (U q I E).
+    - intros H q I E. apply H. rewrite <- E. apply in_map; auto. }
+  split; [|split; [|split; [|split]]].
+  - intros p q. split.
+    + intros H. apply Hs in H as [(p' & q' & I1 & I2 & E & [Ix|[]])|[(p' & C & _)|(q' & C & _)]]; try discriminate.
+      injection Ix as <- <-. auto.
+    + intros (I1 & I2 & E). apply Hs. left. exists p, q. simpl. auto.
+  - intros x. split.
+    + intros H. apply Hs in H as [(p' & q' & _ & _ & _ & [Ix|[]])|[(p' & C & I & U)|(q' & C & _)]]; try discriminate.
+      injection C as ->. exists p'. repeat split; auto. apply Hun; auto.
+    + intros (p & -> & I & U). apply Hs. right; left. exists p. repeat split; auto. apply Hun; auto.
+  - intros x. split.
+    + intros H. apply Hs in H as [(p' & q' & _ & _ & _ & [Ix|[]])|[(p' & C & _)|(q' & C & I & U)]]; try discriminate.
+      injection C as ->. exists q'. repeat split; auto. apply Hun; auto.
+    + intros (q & -> & I & U). apply Hs. right; right. exists q. repeat split; auto. apply Hun; auto.
+  - intros H. apply Hs in H as [(p' & q' & _ & _ & _ & [Ix|[]])|[(p' & C & _)|(q' & C & _)]]; discriminate.
+  - intros H. apply Hs in H as [(p' & q' & _ & _ & _ & [Ix|[]])|[(p' & C & _)|(q' & C & _)]]; discriminate.
+Qed.
 
 (* ---- find_kid ---------------------------------------------------------------------------------------------------------------- *)
 Lemma find_kid_some ks p k : find_kid ks p = Some k -> In k ks /\ node_name k = p.
@@ -896,78 +1203,90 @@ Qed.
 Lemma strip_name_eq a b : strip a = strip b -> node_name a = node_name b -> a = b.
 Proof. destruct a, b; simpl; intros H E; try discriminate; injection H; intros; subst; reflexivity. Qed.
 
-Lemma in_sorted_canon x ks : In x (sort_nodes (map canon ks)) <-> exists k, In k ks /\ x = canon k.
-Proof.
-  split.
-  - intros I. apply (Permutation_in _ (sort_nodes_perm _)) in I. apply in_map_iff in I as (k & E & I). eauto.
-  - intros (k & I & ->). apply (Permutation_in _ (Permutation_sym (sort_nodes_perm _))). apply in_map; auto.
-Qed.
+(* ---- keys_unique ------------------------------------------------------------------------------------------------------------ *)
+Lemma nd_eq l :
+  (fix nd (l : list bytes) : bool :=
+     match l with [] => true | x :: r => negb (existsb (bytes_eqb x) r) && nd r end) l = nodup_names l.
+Proof. reflexivity. Qed.
+Lemma keys_unique_node key a l t d da ks :
+  keys_unique key (Node a l t d da ks) =
+  nodup_names (map (fun k => key (node_name k)) ks) && forallb (keys_unique key) ks.
+Proof. simpl. rewrite nd_eq. reflexivity. Qed.
+Lemma NoDup_key_names (K : bytes -> bytes) ks :
+  NoDup (map (fun k => K (node_name k)) ks) -> NoDup (map node_name ks).
+Proof. intros H. rewrite <- (map_map node_name K) in H. apply NoDup_map_NoDup in H. auto. Qed.
 
 (* ---- the children of two nodes ------------------------------------------------------------------------------------------------ *)
-Lemma kids_iff R ks1 ks2 nm1 nm2 :
-  NoDup (map node_name ks1) -> NoDup (map node_name ks2) ->
-  (forall p k1 k2, find_kid ks1 p = Some k1 -> find_kid ks2 p = Some k2 ->
-                   (R p p = [] <-> canon k1 = canon k2)) ->
-  ((if is_nil (sort_names (map node_name ks1))
-    then map (fun q => DRight (slash nm2 q)) (sort_names (map node_name ks2))
-    else if is_nil (sort_names (map node_name ks2))
-         then map (fun p => DLeft (slash nm1 p)) (sort_names (map node_name ks1))
-         else diff_loop false R (sort_names (map node_name ks2)) nm1 nm2 (sort_names (map node_name ks1)) 0) = []
-   <-> sort_nodes (map canon ks1) = sort_nodes (map canon ks2)).
+Lemma kids_iff ksort K dd R ks1 ks2 nm1 nm2 :
+  (forall x, ksort x = K x) ->
+  NoDup (map (fun k => K (node_name k)) ks1) -> NoDup (map (fun k => K (node_name k)) ks2) ->
+  (forall k1 k2, In k1 ks1 -> In k2 ks2 -> K (node_name k1) = K (node_name k2) ->
+                 (R (node_name k1) (node_name k2) = [] <-> canon_by K dd k1 = canon_by K dd k2)) ->
+  ((if is_nil (sort_names_by ksort (map node_name ks1))
+    then map (fun q => DRight (slash nm2 q)) (sort_names_by ksort (map node_name ks2))
+    else if is_nil (sort_names_by ksort (map node_name ks2))
+         then map (fun p => DLeft (slash nm1 p)) (sort_names_by ksort (map node_name ks1))
+         else diff_loop false K R (sort_names_by ksort (map node_name ks2)) nm1 nm2
+                        (sort_names_by ksort (map node_name ks1)) 0) = []
+   <-> sort_nodes (map (canon_by K dd) ks1) = sort_nodes (map (canon_by K dd) ks2)).
 Proof.
-  intros ND1 ND2 HR.
-  set (c1 := sort_names (map node_name ks1)). set (c2 := sort_names (map node_name ks2)).
-  assert (P1 : forall p, In p c1 <-> In p (map node_name ks1)).
-  { intros p; split; apply Permutation_in; [|symmetry]; apply sort_names_perm. }
-  assert (P2 : forall p, In p c2 <-> In p (map node_name ks2)).
-  { intros p; split; apply Permutation_in; [|symmetry]; apply sort_names_perm. }
-  assert (NDc1 : NoDup c1) by (eapply Permutation_NoDup; [symmetry; apply sort_names_perm|]; auto).
-  assert (NDc2 : NoDup c2) by (eapply Permutation_NoDup; [symmetry; apply sort_names_perm|]; auto).
-  assert (N1 : map node_name (sort_nodes (map canon ks1)) = c1) by (rewrite map_sort_nodes, map_name_canon; auto).
-  assert (N2 : map node_name (sort_nodes (map canon ks2)) = c2) by (rewrite map_sort_nodes, map_name_canon; auto).
+  intros Hk N1 N2 HR. rewrite !(sort_names_by_ext ksort K _ Hk).
+  set (raw1 := map node_name ks1). set (raw2 := map node_name ks2).
+  assert (N1' : NoDup (map K raw1)) by (unfold raw1; rewrite map_map; auto).
+  assert (N2' : NoDup (map K raw2)) by (unfold raw2; rewrite map_map; auto).
+  match goal with |- (?E = [] <-> _) =>
+    assert (Hs : forall x, In x E <-> loop_spec K R nm1 nm2 raw1 raw2 x) end.
+  { intros x.
+    pose proof (sort_names_by_sorted K raw1 N1') as S1. pose proof (sort_names_by_sorted K raw2 N2') as S2.
+    assert (P1 : forall p, In p (sort_names_by K raw1) <-> In p raw1).
+    { intros p; split; apply Permutation_in; [|symmetry]; apply sort_names_by_perm. }
+    assert (P2 : forall p, In p (sort_names_by K raw2) <-> In p raw2).
+    { intros p; split; apply Permutation_in; [|symmetry]; apply sort_names_by_perm. }
+    rewrite <- (loop_spec_perm K R nm1 nm2 _ _ _ _ x P1 P2).
+    destruct (sort_names_by K raw1) as [|x1 r1]; cbn [is_nil]; [apply loop_spec_nil_l|].
+    destruct (sort_names_by K raw2) as [|x2 r2]; cbn [is_nil]; [apply loop_spec_nil_r|].
+    apply diff_loop_spec; auto. discriminate. }
+  rewrite nil_iff_no_in.
+  assert (Hcn : forall k k', canon_by K dd k = canon_by K dd k' -> K (node_name k) = K (node_name k')).
+  { intros k k' E. apply (f_equal node_name) in E. rewrite !canon_by_name in E. auto. }
   split.
-  - intros H.
-    assert (HH : c2 = c1 /\ forall p, In p c1 -> R p p = []).
-    { destruct c1 as [|x1 r1] eqn:E1; cbn [is_nil] in H.
-      - destruct c2; [|discriminate]. split; auto. intros ? [].
-      - destruct c2 as [|x2 r2] eqn:E2; cbn [is_nil] in H; [discriminate|].
-        apply (diff_loop_nil_fwd R nm1 nm2 false (x2 :: r2) (x1 :: r1) [] (x2 :: r2)); auto. }
-    clear H. destruct HH as [Ec HRp].
+  - intros Hno.
+    assert (A : forall p, In p raw1 -> exists q, In q raw2 /\ K q = K p).
+    { intros p I. destruct (key_split K p raw2) as [U|(a & q & b & E & Hq & _)].
+      - exfalso. apply (Hno (DLeft (slash nm1 p))). apply Hs. right; left. exists p. auto.
+      - exists q. split; auto. rewrite E. apply in_or_app. right. left. auto. }
+    assert (B : forall q, In q raw2 -> exists p, In p raw1 /\ K p = K q).
+    { intros q I. destruct (key_split K q raw1) as [U|(a & p & b & E & Hp & _)].
+      - exfalso. apply (Hno (DRight (slash nm2 q))). apply Hs. right; right. exists q. auto.
+      - exists p. split; auto. rewrite E. apply in_or_app. right. left. auto. }
+    assert (C : forall p q, In p raw1 -> In q raw2 -> K p = K q -> R p q = []).
+    { intros p q I1 I2 E. apply nil_iff_no_in. intros x Ix. apply (Hno x). apply Hs. left. exists p, q. auto. }
     apply (ksorted_unique node_name).
-    + apply sort_nodes_sorted. rewrite map_name_canon; auto.
-    + apply sort_nodes_sorted. rewrite map_name_canon; auto.
-    + intros x. rewrite !in_sorted_canon. split.
-      * intros (k & I & ->).
-        assert (Ip : In (node_name k) c1) by (apply P1, in_map; auto).
-        assert (Ip2 : In (node_name k) (map node_name ks2)) by (apply P2; rewrite Ec; auto).
-        destruct (find_kid_in_names _ _ Ip2) as [k2 Hk2].
-        pose proof (find_kid_unique _ _ ND1 I) as Hk1.
-        exists k2. split; [apply (find_kid_some _ _ _ Hk2)|].
-        apply (HR _ _ _ Hk1 Hk2). auto.
-      * intros (k & I & ->).
-        assert (Ip : In (node_name k) c2) by (apply P2, in_map; auto).
-        assert (Ip1 : In (node_name k) (map node_name ks1)) by (apply P1; rewrite <- Ec; auto).
-        destruct (find_kid_in_names _ _ Ip1) as [k1 Hk1].
-        pose proof (find_kid_unique _ _ ND2 I) as Hk2.
-        exists k1. split; [apply (find_kid_some _ _ _ Hk1)|].
-        symmetry. apply (HR _ _ _ Hk1 Hk2). apply HRp. rewrite <- Ec. auto.
+    + apply sort_nodes_sorted. rewrite map_name_canon_by; auto.
+    + apply sort_nodes_sorted. rewrite map_name_canon_by; auto.
+    + intros x. rewrite !in_sorted_map. split.
+      * intros (k1 & I1 & ->). destruct (A (node_name k1)) as (q & Iq & Eq); [apply in_map; auto|].
+        apply in_map_iff in Iq as (k2 & <- & I2). exists k2. split; auto.
+        apply HR; auto. apply C; auto; apply in_map; auto.
+      * intros (k2 & I2 & ->). destruct (B (node_name k2)) as (p & Ip & Ep); [apply in_map; auto|].
+        apply in_map_iff in Ip as (k1 & <- & I1). exists k1. split; auto.
+        symmetry. apply HR; auto. apply C; auto; apply in_map; auto.
   - intros HL.
-    assert (Ec : c2 = c1) by (rewrite <- N1, <- N2, HL; reflexivity).
-    assert (Hall : forall p, In p c1 -> R p p = []).
-    { intros p Ip.
-      assert (Ip1 : In p (map node_name ks1)) by (apply P1; auto).
-      assert (Ip2 : In p (map node_name ks2)) by (apply P2; rewrite Ec; auto).
-      destruct (find_kid_in_names _ _ Ip1) as [k1 Hk1]. destruct (find_kid_in_names _ _ Ip2) as [k2 Hk2].
-      apply (HR _ _ _ Hk1 Hk2).
-      destruct (find_kid_some _ _ _ Hk1) as [I1 E1]. destruct (find_kid_some _ _ _ Hk2) as [I2 E2].
-      assert (Ic : In (canon k1) (sort_nodes (map canon ks2))).
-      { rewrite <- HL. apply in_sorted_canon. eauto. }
-      apply in_sorted_canon in Ic as (k2' & I2' & Ek).
-      assert (En : node_name k2' = p).
-      { rewrite <- (canon_name k2'), <- Ek, canon_name. auto. }
-      pose proof (find_kid_unique _ _ ND2 I2') as Hu. rewrite En in Hu. congruence. }
-    rewrite Ec. destruct c1 as [|x1 r1] eqn:E1; cbn [is_nil]; [reflexivity|].
-    apply (diff_loop_nil_bwd R nm1 nm2 (x1 :: r1) NDc1 (x1 :: r1) []); auto.
+    assert (Hin1 : forall k1, In k1 ks1 -> exists k2, In k2 ks2 /\ canon_by K dd k1 = canon_by K dd k2).
+    { intros k1 I1. apply in_sorted_map. rewrite <- HL. apply in_sorted_map. eauto. }
+    assert (Hin2 : forall k2, In k2 ks2 -> exists k1, In k1 ks1 /\ canon_by K dd k2 = canon_by K dd k1).
+    { intros k2 I2. apply in_sorted_map. rewrite HL. apply in_sorted_map. eauto. }
+    intros x Ix. apply Hs in Ix.
+    destruct Ix as [(p & q & Ip & Iq & E & Ix)|[(p & -> & Ip & U)|(q & -> & Iq & U)]].
+    + apply in_map_iff in Ip as (k1 & <- & I1). apply in_map_iff in Iq as (k2 & <- & I2).
+      destruct (Hin1 k1 I1) as (k2' & I2' & Ec).
+      assert (k2' = k2).
+      { apply (NoDup_map_inj (fun k => K (node_name k)) ks2); auto. rewrite <- (Hcn _ _ Ec). auto. }
+      subst k2'. apply (HR k1 k2 I1 I2 E) in Ec. rewrite Ec in Ix. destruct Ix.
+    + apply in_map_iff in Ip as (k1 & <- & I1). destruct (Hin1 k1 I1) as (k2' & I2' & Ec).
+      apply (U (node_name k2')); [apply in_map; auto|]. symmetry. apply Hcn; auto.
+    + apply in_map_iff in Iq as (k2 & <- & I2). destruct (Hin2 k2 I2) as (k1' & I1' & Ec).
+      apply (U (node_name k1')); [apply in_map; auto|]. symmetry. apply Hcn; auto.
 Qed.
 
 (* ---- facts about the children of a well-formed node -------------------------------------------------------------------------- *)
@@ -987,163 +1306,206 @@ Lemma chase_node fuel w cf a l t d da ks :
   chase fuel w cf (Node a l t d da ks) = Some (cf, Node a l t d da ks).
 Proof. destruct fuel; reflexivity. Qed.
 
-Lemma compare_nodes_S nd follow w1 w2 f name1 cf1 a1 l1 t1 d1 da1 ks1 name2 cf2 a2 l2 t2 d2 da2 ks2 :
-  compare_nodes Cur nd follow w1 w2 (S f) name1 cf1 (Node a1 l1 t1 d1 da1 ks1) name2 cf2 (Node a2 l2 t2 d2 da2 ks2) =
+Lemma compare_nodes_S o w1 w2 f name1 cf1 a1 l1 t1 d1 da1 ks1 name2 cf2 a2 l2 t2 d2 da2 ks2 :
+  d_recurse o = true ->
+  compare_nodes Cur o w1 w2 (S f) name1 cf1 (Node a1 l1 t1 d1 da1 ks1) name2 cf2 (Node a2 l2 t2 d2 da2 ks2) =
   (if bytes_eqb name1 [47] && bytes_eqb name2 [47] then []
-   else compare_data nd name1 name2 (Node a1 l1 t1 d1 da1 ks1) (Node a2 l2 t2 d2 da2 ks2)) ++
-  (if is_nil (sort_names (map node_name ks1))
-   then map (fun q => DRight (slash (unroot name2) q)) (sort_names (map node_name ks2))
-   else if is_nil (sort_names (map node_name ks2))
-        then map (fun p => DLeft (slash (unroot name1) p)) (sort_names (map node_name ks1))
-        else diff_loop false
+   else compare_data (d_data o) name1 name2 (Node a1 l1 t1 d1 da1 ks1) (Node a2 l2 t2 d2 da2 ks2)) ++
+  (if is_nil (sort_names_by (sort_key o) (map node_name ks1))
+   then map (fun q => DRight (slash (unroot name2) q)) (sort_names_by (sort_key o) (map node_name ks2))
+   else if is_nil (sort_names_by (sort_key o) (map node_name ks2))
+        then map (fun p => DLeft (slash (unroot name1) p)) (sort_names_by (sort_key o) (map node_name ks1))
+        else diff_loop false (find_key o)
                (fun p q =>
                   match find_kid ks1 p, find_kid ks2 q with
                   | Some k1, Some k2 =>
-                      compare_nodes Cur nd follow w1 w2 f (slash (unroot name1) p) cf1 k1 (slash (unroot name2) q) cf2 k2
+                      compare_nodes Cur o w1 w2 f (slash (unroot name1) p) cf1 k1 (slash (unroot name2) q) cf2 k2
                   | _, _ => [DErrExit]
                   end)
-               (sort_names (map node_name ks2)) (unroot name1) (unroot name2)
-               (sort_names (map node_name ks1)) 0).
-Proof. destruct follow; reflexivity. Qed.
+               (sort_names_by (sort_key o) (map node_name ks2)) (unroot name1) (unroot name2)
+               (sort_names_by (sort_key o) (map node_name ks1)) 0).
+Proof. intros Hr. destruct o as [dd df dc ds dr]. simpl in Hr. subst dr. destruct df; reflexivity. Qed.
+
+(* G5: without -r only the two named nodes are compared *)
+Lemma no_recurse_only_data : forall o w1 w2 f name1 cf1 a1 l1 t1 d1 da1 ks1 name2 cf2 a2 l2 t2 d2 da2 ks2,
+  d_recurse o = false ->
+  compare_nodes Cur o w1 w2 (S f) name1 cf1 (Node a1 l1 t1 d1 da1 ks1) name2 cf2 (Node a2 l2 t2 d2 da2 ks2) =
+  if bytes_eqb name1 [47] && bytes_eqb name2 [47] then []
+  else compare_data (d_data o) name1 name2 (Node a1 l1 t1 d1 da1 ks1) (Node a2 l2 t2 d2 da2 ks2).
+Proof. intros o. intros. destruct o as [dd df dc ds dr]. simpl in H. subst dr. reflexivity. Qed.
 
 (* ---- main lemma ------------------------------------------------------------------------------------------------------------------ *)
-Definition diff_stmt (w1 w2 : world) (follow : bool) (f : nat) : Prop :=
+Definition diff_stmt (o : dopts) (w1 w2 : world) (f : nat) : Prop :=
   forall t1 t2 name1 name2 cf1 cf2,
   bytes_eqb name1 [47] && bytes_eqb name2 [47] = false ->
   link_free t1 = true -> link_free t2 = true ->
-  names_unique t1 = true -> names_unique t2 = true ->
+  keys_unique (find_key o) t1 = true -> keys_unique (find_key o) t2 = true ->
   names_nonempty t1 = true -> names_nonempty t2 = true ->
   tree_ok Old false t1 = true -> tree_ok Old false t2 = true ->
   (depth t1 <= f)%nat ->
-  (compare_nodes Cur true follow w1 w2 f name1 cf1 t1 name2 cf2 t2 = [] <-> strip (canon t1) = strip (canon t2)).
+  (compare_nodes Cur o w1 w2 f name1 cf1 t1 name2 cf2 t2 = [] <->
+   strip (canon_by (find_key o) (d_data o) t1) = strip (canon_by (find_key o) (d_data o) t2)).
 
-Definition forest_ok (ks : list node) : Prop :=
-  NoDup (map node_name ks) /\
-  forall k, In k ks -> link_free k = true /\ names_unique k = true /\ node_name k <> [] /\
+Definition forest_ok (K : bytes -> bytes) (ks : list node) : Prop :=
+  NoDup (map (fun k => K (node_name k)) ks) /\
+  forall k, In k ks -> link_free k = true /\ keys_unique K k = true /\ node_name k <> [] /\
                        names_nonempty k = true /\ tree_ok Old false k = true.
 
-Lemma forest_ok_of ks :
-  forallb link_free ks = true -> nodup_names (map node_name ks) = true -> forallb names_unique ks = true ->
+Lemma forest_ok_of K ks :
+  forallb link_free ks = true -> nodup_names (map (fun k => K (node_name k)) ks) = true ->
+  forallb (keys_unique K) ks = true ->
   forallb (fun k => negb (is_nil (node_name k)) && names_nonempty k) ks = true ->
-  forallb (tree_ok Old false) ks = true -> forest_ok ks.
+  forallb (tree_ok Old false) ks = true -> forest_ok K ks.
 Proof.
   intros L N U E O. rewrite forallb_forall in L, U, E, O. split; [apply nodup_names_NoDup; auto|].
   intros k I. specialize (E k I). apply andb_true_iff in E as [E1 E2].
   repeat split; auto. intros C. rewrite C in E1. discriminate.
 Qed.
 
-Lemma kids_part w1 w2 follow f nm1 nm2 cf1 cf2 ks1 ks2 :
-  diff_stmt w1 w2 follow f -> forest_ok ks1 -> forest_ok ks2 ->
+Lemma kids_part o w1 w2 f nm1 nm2 cf1 cf2 ks1 ks2 :
+  diff_stmt o w1 w2 f -> forest_ok (find_key o) ks1 -> forest_ok (find_key o) ks2 ->
   (forall k, In k ks1 -> (depth k <= f)%nat) ->
-  ((if is_nil (sort_names (map node_name ks1))
-    then map (fun q => DRight (slash nm2 q)) (sort_names (map node_name ks2))
-    else if is_nil (sort_names (map node_name ks2))
-         then map (fun p => DLeft (slash nm1 p)) (sort_names (map node_name ks1))
-         else diff_loop false
+  ((if is_nil (sort_names_by (sort_key o) (map node_name ks1))
+    then map (fun q => DRight (slash nm2 q)) (sort_names_by (sort_key o) (map node_name ks2))
+    else if is_nil (sort_names_by (sort_key o) (map node_name ks2))
+         then map (fun p => DLeft (slash nm1 p)) (sort_names_by (sort_key o) (map node_name ks1))
+         else diff_loop false (find_key o)
                 (fun p q =>
                    match find_kid ks1 p, find_kid ks2 q with
-                   | Some k1, Some k2 => compare_nodes Cur true follow w1 w2 f (slash nm1 p) cf1 k1 (slash nm2 q) cf2 k2
+                   | Some k1, Some k2 => compare_nodes Cur o w1 w2 f (slash nm1 p) cf1 k1 (slash nm2 q) cf2 k2
                    | _, _ => [DErrExit]
                    end)
-                (sort_names (map node_name ks2)) nm1 nm2 (sort_names (map node_name ks1)) 0) = []
-   <-> sort_nodes (map canon ks1) = sort_nodes (map canon ks2)).
+                (sort_names_by (sort_key o) (map node_name ks2)) nm1 nm2
+                (sort_names_by (sort_key o) (map node_name ks1)) 0) = []
+   <-> sort_nodes (map (canon_by (find_key o) (d_data o)) ks1) =
+       sort_nodes (map (canon_by (find_key o) (d_data o)) ks2)).
 Proof.
-  intros IH [ND1 A1] [ND2 A2] D. apply kids_iff; auto.
-  intros p k1 k2 E1 E2. cbv beta. rewrite E1, E2.
-  destruct (find_kid_some _ _ _ E1) as [I1 N1]. destruct (find_kid_some _ _ _ E2) as [I2 N2].
+  intros IH [ND1 A1] [ND2 A2] D.
+  (* the lists are sorted with sort_key, searched with find_key: this is where the two must agree *)
+  apply (kids_iff (sort_key o) (find_key o)); auto using keys_agree.
+  intros k1 k2 I1 I2 E. cbv beta.
+  rewrite (find_kid_unique ks1 k1), (find_kid_unique ks2 k2); auto; try (eapply NoDup_key_names; eassumption).
   destruct (A1 _ I1) as (L1 & U1 & M1 & Y1 & O1). destruct (A2 _ I2) as (L2 & U2 & M2 & Y2 & O2).
-  rewrite (IH k1 k2 (slash nm1 p) (slash nm2 p) cf1 cf2); auto.
+  rewrite (IH k1 k2 (slash nm1 (node_name k1)) (slash nm2 (node_name k2)) cf1 cf2); auto.
   - split; [|intros ->; reflexivity]. intros H. apply strip_name_eq; auto.
-    rewrite !canon_name. congruence.
-  - rewrite slash_not_root; [reflexivity|congruence].
+    rewrite !canon_by_name. auto.
+  - rewrite slash_not_root; [reflexivity|auto].
 Qed.
 
-Lemma diff_main w1 w2 follow : forall fuel, diff_stmt w1 w2 follow fuel.
+Lemma diff_main o w1 w2 : d_recurse o = true -> forall fuel, diff_stmt o w1 w2 fuel.
 Proof.
-  induction fuel as [|f IH]; intros t1 t2 name1 name2 cf1 cf2 NR L1 L2 U1 U2 E1 E2 O1 O2 D.
+  intros Hr. induction fuel as [|f IH]; intros t1 t2 name1 name2 cf1 cf2 NR L1 L2 U1 U2 E1 E2 O1 O2 D.
   { destruct t1; simpl in D; lia. }
   destruct t1 as [a1 l1 dt1 d1 da1 ks1|]; [|discriminate].
   destruct t2 as [a2 l2 dt2 d2 da2 ks2|]; [|discriminate].
-  rewrite compare_nodes_S, NR.
-  cbn [link_free] in L1, L2. cbn [names_unique] in U1, U2. cbn [tree_ok] in O1, O2. cbn [names_nonempty] in E1, E2.
+  rewrite compare_nodes_S by auto. rewrite NR.
+  cbn [link_free] in L1, L2. rewrite keys_unique_node in U1, U2. cbn [tree_ok] in O1, O2.
+  cbn [names_nonempty] in E1, E2.
   apply andb_true_iff in U1 as [ND1 U1]. apply andb_true_iff in U2 as [ND2 U2].
   apply andb_true_iff in O1 as [K1 O1]. apply andb_true_iff in O2 as [K2 O2].
-  pose proof (compare_data_nil name1 name2 a1 l1 dt1 d1 da1 ks1 a2 l2 dt2 d2 da2 ks2 K1 K2) as CD.
+  pose proof (compare_data_nil_dd (d_data o) name1 name2 a1 l1 dt1 d1 da1 ks1 a2 l2 dt2 d2 da2 ks2 K1 K2) as CD.
   match goal with |- (_ ++ ?B = [] <-> _) =>
-    assert (KI : B = [] <-> sort_nodes (map canon ks1) = sort_nodes (map canon ks2)) end.
+    assert (KI : B = [] <-> sort_nodes (map (canon_by (find_key o) (d_data o)) ks1) =
+                            sort_nodes (map (canon_by (find_key o) (d_data o)) ks2)) end.
   { apply kids_part; auto using forest_ok_of.
     intros k I. pose proof (depth_kid _ _ I). simpl in D. lia. }
-  unfold strip. cbn [canon rename]. split.
-  - intros H. apply app_eq_nil in H as [Ha Hb]. apply CD in Ha as (-> & -> & -> & ->).
-    apply KI in Hb. rewrite Hb. reflexivity.
-  - intros H. injection H as -> -> -> -> Hk.
+  unfold strip. cbn [canon_by rename]. split.
+  - intros H. apply app_eq_nil in H as [Ha Hb]. apply CD in Ha as (-> & -> & -> & Eda).
+    apply KI in Hb. rewrite Hb, Eda. reflexivity.
+  - intros H. injection H as -> -> -> Eda Hk.
     apply KI in Hk. rewrite Hk. rewrite (proj2 CD); auto.
 Qed.
 
-(* ---- the theorems ------------------------------------------------------------------------------------------------------------------ *)
-Theorem diff_empty_iff : forall w1 w2 follow fuel name1 cf1 t1 name2 cf2 t2,
+(* ---- G3: the theorems ---------------------------------------------------------------------------------------------------------------- *)
+Theorem diff_empty_iff : forall o w1 w2 fuel name1 cf1 t1 name2 cf2 t2,
+  d_recurse o = true ->
   bytes_eqb name1 [47] && bytes_eqb name2 [47] = false ->
   link_free t1 = true -> link_free t2 = true ->
-  names_unique t1 = true -> names_unique t2 = true ->
+  keys_unique (find_key o) t1 = true -> keys_unique (find_key o) t2 = true ->
   names_nonempty t1 = true -> names_nonempty t2 = true ->
   tree_ok Old false t1 = true -> tree_ok Old false t2 = true ->
   (depth t1 <= fuel)%nat ->
-  (compare_nodes Cur true follow w1 w2 fuel name1 cf1 t1 name2 cf2 t2 = [] <-> strip (canon t1) = strip (canon t2)).
+  (compare_nodes Cur o w1 w2 fuel name1 cf1 t1 name2 cf2 t2 = [] <->
+   strip (canon_by (find_key o) (d_data o) t1) = strip (canon_by (find_key o) (d_data o) t2)).
 Proof.
   intros. apply diff_main; auto.
 Qed.
 
-(* whole files: the roots' own label / type / data are NOT compared any more, only the forests below them *)
-Theorem cgnsdiff_silent_iff : forall w1 w2 follow fuel f1 f2 r1 r2,
+(* whole files: the roots' own label / type / data are not compared, only the forests below them *)
+Theorem cgnsdiff_silent_iff : forall o w1 w2 fuel f1 f2 r1 r2,
+  d_recurse o = true ->
   get_file w1 f1 = Some r1 -> get_file w2 f2 = Some r2 ->
   link_free r1 = true -> link_free r2 = true ->
-  names_unique r1 = true -> names_unique r2 = true ->
+  keys_unique (find_key o) r1 = true -> keys_unique (find_key o) r2 = true ->
   names_nonempty r1 = true -> names_nonempty r2 = true ->
   kids_ok Old false r1 = true -> kids_ok Old false r2 = true ->
   (depth r1 <= fuel)%nat ->
-  (cgnsdiff Cur true follow w1 w2 fuel f1 f2 = [] <->
-   sort_nodes (map canon (kids_of r1)) = sort_nodes (map canon (kids_of r2))).
+  (cgnsdiff Cur o w1 w2 fuel f1 f2 = [] <->
+   sort_nodes (map (canon_by (find_key o) (d_data o)) (kids_of r1)) =
+   sort_nodes (map (canon_by (find_key o) (d_data o)) (kids_of r2))).
 Proof.
-  intros w1 w2 follow fuel f1 f2 r1 r2 G1 G2 L1 L2 U1 U2 E1 E2 O1 O2 D. unfold cgnsdiff. rewrite G1, G2.
+  intros o w1 w2 fuel f1 f2 r1 r2 Hr G1 G2 L1 L2 U1 U2 E1 E2 O1 O2 D. unfold cgnsdiff. rewrite G1, G2.
   destruct fuel as [|f]. { destruct r1; simpl in D; lia. }
   destruct r1 as [a1 l1 dt1 d1 da1 ks1|]; [|discriminate].
   destruct r2 as [a2 l2 dt2 d2 da2 ks2|]; [|discriminate].
-  rewrite compare_nodes_S.
+  rewrite compare_nodes_S by auto.
   change (bytes_eqb [47] [47]) with true. change (unroot [47]) with (@nil Z). cbn [andb app kids_of].
-  cbn [link_free] in L1, L2. cbn [names_unique] in U1, U2. cbn [names_nonempty] in E1, E2.
+  cbn [link_free] in L1, L2. rewrite keys_unique_node in U1, U2. cbn [names_nonempty] in E1, E2.
   unfold kids_ok in O1, O2. cbn [kids_of] in O1, O2.
   apply andb_true_iff in U1 as [ND1 U1]. apply andb_true_iff in U2 as [ND2 U2].
   apply kids_part; auto using forest_ok_of, diff_main.
   intros k I. pose proof (depth_kid _ _ I). simpl in D. lia.
 Qed.
 
-(* equal forests under different roots (an ADF file and its HDF5 conversion) are silent *)
-Theorem cgnsdiff_same_forest_silent : forall w1 w2 follow fuel f1 f2 r1 r2,
-  get_file w1 f1 = Some r1 -> get_file w2 f2 = Some r2 ->
-  kids_of r2 = kids_of r1 ->
-  link_free r1 = true -> link_free r2 = true -> names_unique r1 = true -> names_nonempty r1 = true ->
+(* nothing is reported for identical forests under different roots (an ADF file and its HDF5 conversion) *)
+Theorem cgnsdiff_same_forest_silent : forall o w1 w2 fuel f1 f2 r1 r2,
+  d_recurse o = true -> get_file w1 f1 = Some r1 -> get_file w2 f2 = Some r2 -> kids_of r2 = kids_of r1 ->
+  link_free r1 = true -> link_free r2 = true -> keys_unique (find_key o) r1 = true -> names_nonempty r1 = true ->
   kids_ok Old false r1 = true -> (depth r1 <= fuel)%nat ->
-  cgnsdiff Cur true follow w1 w2 fuel f1 f2 = [].
+  cgnsdiff Cur o w1 w2 fuel f1 f2 = [].
 Proof.
-  intros w1 w2 follow fuel f1 f2 r1 r2 G1 G2 EK L1 L2 U1 E1 O1 D.
-  apply (cgnsdiff_silent_iff w1 w2 follow fuel f1 f2 r1 r2); auto.
-  - destruct r1; [|discriminate]. destruct r2; [|discriminate]. simpl in EK. subst. exact U1.
+  intros o w1 w2 fuel f1 f2 r1 r2 Hr G1 G2 EK L1 L2 U1 E1 O1 D.
+  apply (cgnsdiff_silent_iff o w1 w2 fuel f1 f2 r1 r2); auto.
+  - destruct r1; [|discriminate]. destruct r2; [|discriminate]. simpl in EK. subst.
+    rewrite keys_unique_node in *. exact U1.
   - destruct r1; [|discriminate]. destruct r2; [|discriminate]. simpl in EK. subst. exact E1.
   - unfold kids_ok in *. rewrite EK. exact O1.
   - rewrite EK. reflexivity.
+Qed.
+
+(* and every difference between the forests is reported *)
+Theorem cgnsdiff_reports_difference : forall o w1 w2 fuel f1 f2 r1 r2,
+  d_recurse o = true ->
+  get_file w1 f1 = Some r1 -> get_file w2 f2 = Some r2 ->
+  link_free r1 = true -> link_free r2 = true ->
+  keys_unique (find_key o) r1 = true -> keys_unique (find_key o) r2 = true ->
+  names_nonempty r1 = true -> names_nonempty r2 = true ->
+  kids_ok Old false r1 = true -> kids_ok Old false r2 = true ->
+  (depth r1 <= fuel)%nat ->
+  sort_nodes (map (canon_by (find_key o) (d_data o)) (kids_of r1)) <>
+  sort_nodes (map (canon_by (find_key o) (d_data o)) (kids_of r2)) ->
+  cgnsdiff Cur o w1 w2 fuel f1 f2 <> [].
+Proof.
+  intros o w1 w2 fuel f1 f2 r1 r2 Hr G1 G2 L1 L2 U1 U2 E1 E2 O1 O2 D Hne C.
+  apply Hne. apply (cgnsdiff_silent_iff o w1 w2 fuel f1 f2 r1 r2); auto.
 Qed.
 End DiffP.
 
 (* ---- cgnsdiff: repaired corners (Old / Cur) and the known one ------------------------------------------------------------------------- *)
 Definition strip := DiffP.strip.
+Definition has_oob (l : list dline) : bool :=
+  existsb (fun d => match d with DOutOfBounds => true | _ => false end) l.
+Definition o_d : dopts := mkO true false false false true.       (* cgnsdiff -d *)
+Definition o_cd : dopts := mkO true false true false true.      (* cgnsdiff -c -d *)
+Definition o_di : dopts := mkO true false false true true.      (* cgnsdiff -d -i *)
 
 (* before 39f8525: an ADF file and its exact HDF5 conversion -- cgnsdiff reported the roots' labels; now it is silent *)
 Lemma diff_cross_format_root_label_old :
   exists w src dst w', get_file w src = Some (with_kids adf_root [Node [78] [76] I4 [1] [7;0;0;0] []]) /\
     cgnsconvert Cur 4 w src dst true false = Ok w' /\
     (forall r r', get_file w' src = Some r -> get_file w' dst = Some r' -> kids_of r' = kids_of r) /\
-    cgnsdiff Old true false w' w' 8 src dst = [DLabel [47] [47]] /\
-    cgnsdiff Cur true false w' w' 8 src dst = [].
+    cgnsdiff Old o_d w' w' 8 src dst = [DLabel [47] [47]] /\
+    cgnsdiff Cur o_d w' w' 8 src dst = [].
 Proof.
   exists [([65], with_kids adf_root [Node [78] [76] I4 [1] [7;0;0;0] []])], [65], [72]. eexists.
   split; [reflexivity|]. split; [vm_compute; reflexivity|]. split; [|split; vm_compute; reflexivity].
@@ -1157,13 +1519,28 @@ Definition linkfile (v : Z) : node := with_kids adf_root
    LinkNode [75] [] [47;84;v]].
 Lemma diff_link_target_blind :
   exists w f1 f2 r1 r2, get_file w f1 = Some r1 /\ get_file w f2 = Some r2 /\
-    cgnsdiff Cur true false w w 8 f1 f2 = [] /\
+    cgnsdiff Cur o_d w w 8 f1 f2 = [] /\
     strip (canon r1) <> strip (canon r2) /\
     full_view 8 w f1 r1 <> full_view 8 w f2 r2 /\ full_view 8 w f1 r1 <> None /\ full_view 8 w f2 r2 <> None.
 Proof.
   exists [([49], linkfile 49); ([50], linkfile 50)], [49], [50], (linkfile 49), (linkfile 50).
   repeat split; try reflexivity; vm_compute; discriminate.
 Qed.
+
+(* open finding: siblings whose names collide after normalisation (x, Y, y under -c; a, "b c", bc under -i), a file against
+   itself: spurious lines, then children2[33*n2] is read with n2 = nc2; without -c / -i the same pair is silent *)
+Definition collide_c : node := with_kids adf_root
+  [Node [120] [1] s_MT [] [] []; Node [89] [2] s_MT [] [] []; Node [121] [3] s_MT [] [] []].
+Definition collide_i : node := with_kids adf_root
+  [Node [97] [1] s_MT [] [] []; Node [98;32;99] [2] s_MT [] [] []; Node [98;99] [3] s_MT [] [] []].
+Lemma diff_name_collision :
+  names_unique collide_c = true /\ keys_unique (find_key o_cd) collide_c = false /\
+  cgnsdiff Cur o_cd [([65], collide_c)] [([65], collide_c)] 5 [65] [65] =
+    [DRight [47;89]; DLabel [47;89] [47;121]; DOutOfBounds] /\
+  cgnsdiff Cur o_d [([65], collide_c)] [([65], collide_c)] 5 [65] [65] = [] /\
+  names_unique collide_i = true /\ keys_unique (find_key o_di) collide_i = false /\
+  has_oob (cgnsdiff Cur o_di [([65], collide_i)] [([65], collide_i)] 5 [65] [65]) = true.
+Proof. repeat (split; [vm_compute; reflexivity|]). vm_compute; reflexivity. Qed.
 
 (* a chain of n nodes with 32-character names "nDDxxxx..." *)
 Fixpoint chain (n : nat) (i : Z) : list node :=
@@ -1178,8 +1555,8 @@ Definition has_overflow (l : list dline) : bool :=
 Lemma diff_deep_path_overflow_old :
   exists w f r, get_file w f = Some r /\ link_free r = true /\ names_unique r = true /\ tree_ok Cur true r = true /\
     copy_file Cur false (fun _ _ => None) 0 false r adf_root = Ok r /\
-    has_overflow (cgnsdiff Old true false w w 64 f f) = true /\
-    cgnsdiff Cur true false w w 64 f f = [].
+    has_overflow (cgnsdiff Old o_d w w 64 f f) = true /\
+    cgnsdiff Cur o_d w w 64 f f = [].
 Proof.
   exists [([65], with_kids adf_root (chain 40 0))], [65], (with_kids adf_root (chain 40 0)).
   split; [reflexivity|]. split; [vm_compute; reflexivity|]. split; [vm_compute; reflexivity|].
